@@ -104,6 +104,9 @@ func Harness_C10_call_returns_and_frees_drive() {
 	other := c10Names[vm.Choice("other", 2)+3]
 	if vm.Bool("faulty") {
 		vm.FaultBudget = 1
+		if vm.Tier() == "thorough" {
+			vm.FaultBudget = 2 // two faults in one call
+		}
 	}
 	err := c10Call(v, op, name, other)
 	vm.Known("C10-restore-goroutine-panics-on-error", op == 12 && vm.FaultsUsed > 0)
